@@ -133,3 +133,17 @@ Theorem C01_order_independent : forall (P : list (node Z)),
   forall i, nth i (nth j G1 []) 0%Z = nth i (nth j G2 []) 0%Z.
 Proof. exact order_independent_Z. Qed.
 Print Assumptions C01_order_independent.
+
+(* (10) the same for ANY ring (the reals for meaning), in dual form: the gradients left by two valid orders pair
+   identically with every perturbation of the leaves *)
+Theorem C01_order_independent_any_ring :
+  forall (A : Type) (a0 a1 : A) (add mul sub : A -> A -> A) (opp : A -> A),
+  ring_theory a0 a1 add mul sub opp (@eq A) ->
+  forall (P : list (node A)), wf A P -> ops_ok A a0 add mul P ->
+  forall (L : nat) (seed : list A) (o1 o2 : list nat),
+  L < length P -> valid_rest A P o1 -> In L o1 -> valid_rest A P o2 -> In L o2 ->
+  let G0 := upd A add (repeat [] (length P)) L seed in
+  forall delta : nat -> list A,
+  leaf_sum A a0 add mul delta 0 P (sweepL A add P o1 G0) = leaf_sum A a0 add mul delta 0 P (sweepL A add P o2 G0).
+Proof. exact order_independent_dual. Qed.
+Print Assumptions C01_order_independent_any_ring.
